@@ -165,8 +165,62 @@ def renamed_section(ctx):
                 break
 
 
+def designspace_section(ctx):
+    """the designspace entry points for CFF outlines (compileInterpolatableOTFsFromDS, compileVariableCFF2): with an explicit
+    roundTolerance below 1/2 every master's outlines -- and the variable font's default outlines -- stay within that tolerance
+    of the resolved source (fractional coordinates and component offsets), exactly as compileOTF does it"""
+    import ufo2ft
+    from fontTools.ttLib import TTFont
+    from harness import dsgen
+    rng = ctx.subrng("designspace-otf")
+    for i in range(ctx.budget(6, 30)):
+        lib = ["ufoLib2", "defcon"][i % 2]
+        tol_opt = [0, 0, 0.25][i % 3]
+        tol = Fr(tol_opt)
+        base = dsgen.base_master(rng, kinds=("line", "curve"), max_depth=2, int_coords=False, anchors=False,
+                                 classes=["identity", "scale", "mirror_x"])
+        for g in base["glyphs"]:       # halves and quarters: every coordinate sits well away from an integer
+            g["contours"] = [[(Fr(round(x)) + Fr(rng.choice([1, 2, 3]), 4), Fr(round(y)) + Fr(rng.choice([1, 2, 3]), 4), t) for x, y, t in c] for c in g["contours"]]
+            g["components"] = [(b, tuple(t[:4]) + (Fr(round(t[4])) + Fr(1, 2), Fr(round(t[5])) + Fr(1, 4))) for b, t in g["components"]]
+        masters = [base, dsgen.perturb(rng, base, 1)]
+        how = ["compileInterpolatableOTFsFromDS", "compileVariableCFF2"][(i // 3) % 2]
+        case = {"function": how, "options": {"roundTolerance": tol_opt}, "lib": lib, "font": jsonable(base), "last_master": jsonable(masters[1]),
+                "level": "designspace CFF"}
+        ctx.count(); ctx.klass("sem:designspace:%s/tol=%s" % (how, tol_opt)); ctx.nontriv(("ds", i, ctx.scale))
+        try:
+            ds, fonts = dsgen.make_designspace(rng, masters, lib, instances=False)
+            if how == "compileInterpolatableOTFsFromDS":
+                outs = [(k, sd.font) for k, sd in enumerate(ufo2ft.compileInterpolatableOTFsFromDS(ds, roundTolerance=tol_opt, useProductionNames=False).sources)]
+            else:
+                outs = [(0, ufo2ft.compileVariableCFF2(ds, roundTolerance=tol_opt, useProductionNames=False))]
+        except Exception as e:
+            ctx.spec_failure(case, "%s raised %s: %s\n%s" % (how, type(e).__name__, e, traceback.format_exc()[-1200:]))
+            continue
+        for k, tt in outs:
+            buf = io.BytesIO(); tt.save(buf); buf.seek(0); tt = TTFont(buf)
+            gs = tt.getGlyphSet()
+            by = {g["name"]: g for g in masters[k]["glyphs"]}
+            bad = None
+            for g in masters[k]["glyphs"]:
+                try:
+                    exact = [geom.elevate(sg, inexact_guard=False) for sg in geom.ref_resolve(by, g["name"])]
+                except geom.NearHalf:
+                    continue
+                if degenerate(exact) or any(abs(v) > 16000 for sgm in exact for pt in flat(sgm)[1] for v in pt):
+                    continue
+                got = geom.recorded_to_segments(geom.drawn_segments(gs[g["name"]]), snap_eps=Fr(1, 2))
+                npts = sum(len(flat(sgm)[1]) for sgm in exact)
+                if not approx_same(exact, got, tol + Fr(1, 10) + Fr(npts, 150)):
+                    bad = g["name"]
+                    break
+            if bad:
+                ctx.spec_failure(dict(case, master=k, glyph=bad), "master %d: outline of %r moved by more than roundTolerance %s from the resolved source outline" % (k, bad, tol))
+                break
+
+
 def explore(ctx):
     renamed_section(ctx)
+    designspace_section(ctx)
     import ufo2ft
     from ufo2ft.preProcessor import OTFPreProcessor
     from fontTools.ttLib import TTFont
